@@ -33,6 +33,14 @@ TNext ==
      ELSE IF e.a.op \notin KnownOps
      THEN /\ st' = st
           /\ PrintT(<<"UNMODELLED", e.a.op>>)
+     ELSE IF e.a.t \notin DOMAIN st.objs
+     \* the implementation created an object where the specification prescribes a failure (an
+     \* earlier MISMATCH of this case): the rest of the case refers to objects the model does not have
+     THEN /\ st' = st
+          /\ PrintT(<<"MISMATCH", ToJson([i |-> e.i, case |-> e.case, o |-> e.a,
+                                          want |-> [ok |-> FALSE, err |-> "no such object in the model", v |-> <<>>,
+                                                    num |-> 0, cnt |-> 0, new |-> <<>>, rem |-> -1, touched |-> <<>>],
+                                          got |-> e.o])>>)
      ELSE LET r == Apply(st, e.a) IN
           /\ st' = r.st
           /\ IF Conforms(e, r) THEN TRUE
